@@ -555,6 +555,7 @@ class C09(Prop):
             exp["getkey"] = "F:30" if valid else None
             exp["getkey2"] = "F:3330" if valid else None      # (raw text `30` in hex)
             exp["bytes2"] = exp_strict if valid else None     # (what a byte string makes of undecodable text is C04's business)
+            exp["tuple3"] = exp_strict if valid else None
             t = unhex(case.split(" ")[1])
             ls = int(case.split(" ")[2])
             kind = case.split(" ")[3]
@@ -617,6 +618,35 @@ class C10(Prop):
     def explore(self, ctx, res):
         self._explore(ctx, res, "c10", wellformed=True)
         self._skippers(ctx, res)
+        self._portable(ctx, res)
+
+    def _portable(self, ctx, res):
+        """the same lookups through the portable build of the harness (fallback block primitives, SSE2 vectors): what a user without
+        AVX2 / PCLMUL gets must answer as the build whose answers were just compared with the specification (added after seed C10f)"""
+        if ctx.get("replay"):
+            return
+        cases_path = os.path.join(ctx["work"], "c10.cases")
+        native_path = cases_path + ".impl"
+        if not (os.path.exists(cases_path) and os.path.exists(native_path)):
+            return
+        vb = build_variant(ctx, "base", rustflags="--cfg sonic_rs_verif -C target-cpu=x86-64")
+        if vb is None:
+            return
+        outp = cases_path + ".base"
+        rc, err = ctx["run_lines"](vb, ["c10", "run"], cases_path, outp)
+        with open(cases_path) as f:
+            cases = f.read().splitlines()
+        with open(native_path, errors="replace") as f:
+            nat = f.read().splitlines()
+        with open(outp, errors="replace") as f:
+            base = f.read().splitlines()
+        if rc != 0 or len(base) != len(cases):
+            res.oracle_failures.append(dict(key="c10:process-abort:portable-build", case=cases[min(len(base), len(cases) - 1)], detail=err[-300:]))
+        for i in range(min(len(base), len(nat), len(cases))):
+            res.distribution["build:portable"] += 1
+            if base[i] != nat[i]:
+                res.oracle_failures.append(dict(key="C10|portable-build|answers-differently-from-the-build-compared-with-the-specification", case=cases[i],
+                                                detail=f"portable {base[i][:150]} native {nat[i][:150]}"))
 
     def _skippers(self, ctx, res):
         """the block models of skip_container / skip_string_unchecked (the subjects of the unchecked-skip theorems) against the real functions"""
